@@ -407,7 +407,13 @@ impl ExpressionParser {
                             Operator::Assign => 16,
                             Operator::AssignUndefined => 16,
                         };
-                        if prio <= best_idx_prio {
+                        // Binary operators group left to right: among equal priorities the FIRST
+                        // one is folded first.  '!' and the assignments group to the right.
+                        let right_to_left = matches!(
+                            operator,
+                            Operator::Not | Operator::Assign | Operator::AssignUndefined
+                        );
+                        if prio < best_idx_prio || (right_to_left && prio == best_idx_prio) {
                             best_idx = si;
                             best_idx_prio = prio;
                         }
